@@ -282,6 +282,12 @@ def must_reject(s, v):
     Only for settings without a custom schema, where armi documents "a type check against the default".
     Returns the name of the violated rule or None.
     """
+    if s.name == "cycles" and isinstance(v, list):
+        # armi's own message states the rule: "Must have exactly one of either 'cumulative days', 'step days', or 'cycle length' + 'burn steps'"
+        for c in v:
+            if isinstance(c, dict) and sum(["cumulative days" in c, "step days" in c, ("cycle length" in c or "burn steps" in c)]) != 1:
+                return "cycle-history-not-exactly-one-form"
+        return None
     if type(s).__name__ != "Setting" or s._customSchema:
         return None
     if s.options and s.enforcedOptions:
@@ -521,10 +527,22 @@ def gen_cycles(rng):
 def gen_cycles_bad(rng):
     v = gen_cycles(rng) or [gen_cycle(rng)]
     c = rng.choice(v)
-    r = rng.randint(0, 7)
+    r = rng.randint(0, 9)
     if r == 0:
         c["cumulative days"] = [1, 2]
         c["step days"] = [1]
+    elif r == 8:  # all three ways of giving the cycle history at once
+        c["cumulative days"] = [10, 20, 30]
+        c["step days"] = [10, "2R"]
+        c["cycle length"] = 30.0
+        c["burn steps"] = 3
+    elif r == 9:  # two of the three
+        for k in ("step days", "cumulative days", "cycle length", "burn steps"):
+            c.pop(k, None)
+        a_, b_ = rng.sample([("cumulative days", [1, 2, 3]), ("step days", [1, 1]), ("cycle length", 30.0)], 2)
+        c[a_[0]], c[b_[0]] = a_[1], b_[1]
+        if "cycle length" in c:
+            c["burn steps"] = 2
     elif r == 1:
         for k in ("step days", "cycle length", "burn steps"):
             c.pop(k, None)
